@@ -59,6 +59,11 @@ noncomputable instance : LawfulNum ℝ where
   mul_rpow := fun a b e ha hb => by
     show (a * b) ^ ((e : ℚ) : ℝ) = a ^ ((e : ℚ) : ℝ) * b ^ ((e : ℚ) : ℝ)
     rw [Real.mul_rpow (le_of_lt ha) (le_of_lt hb)]
+  rpow_zero_base := fun r hr => by
+    show (0 : ℝ) ^ ((r : ℚ) : ℝ) = 0
+    apply Real.zero_rpow
+    have : (0 : ℝ) < ((r : ℚ) : ℝ) := by exact_mod_cast hr
+    exact ne_of_gt this
   mul_rpow_int := fun a b n => by
     show (a * b) ^ (((n : ℚ)) : ℝ) = a ^ (((n : ℚ)) : ℝ) * b ^ (((n : ℚ)) : ℝ)
     rw [Rat.cast_intCast, Real.rpow_intCast, Real.rpow_intCast, Real.rpow_intCast, mul_zpow]
